@@ -15,7 +15,7 @@ class StrbtA2(Strbt):
         add = bit_at(instr, 23)
         shift_t, shift_n = decode_imm_shift(type_o, imm5)
         post_index = True
-        if rt == 15 or rn == 15 or rn == rt or rm or (arch_version() < 6 and rm == rn):
+        if rt == 15 or rn == 15 or rn == rt or rm == 15 or (arch_version() < 6 and rm == rn):
             print('unpredictable')
         else:
             return StrbtA2(instr, register_form=True, add=add, post_index=post_index, t=rt, n=rn, m=rm, shift_t=shift_t,
